@@ -22,7 +22,7 @@ import (
 // mode the property lists; after each batch the harness waits for the server
 // side to settle (bounded) and records the counts again.
 
-var churnModes = []string{"fin-boundary", "fin-mid", "rst", "quit", "quit-hold", "malformed", "writefail", "tls-nocert", "tls-wrongname", "tls-ok-fin", "tls-ok-rst", "tls-stall-close", "idle-fin"}
+var churnModes = []string{"fin-boundary", "fin-mid", "rst", "quit", "quit-hold", "malformed", "writefail", "tls-nocert", "tls-wrongname", "tls-ok-fin", "tls-ok-rst", "tls-stall-close", "idle-fin", "quit-chatter", "malformed-pipeline"}
 
 func countFDs() int {
 	ents, err := os.ReadDir("/proc/self/fd")
@@ -104,6 +104,31 @@ func (cr *churnRun) one(mode string, rng *rand.Rand) (closedByServer bool, mustC
 	if err != nil {
 		return false, true
 	}
+	if mode == "malformed-pipeline" {
+		// complete requests and then a malformed frame in one segment, read only later: the replies to the complete requests
+		// have to arrive (all of them, before the end of the stream), however the server gets rid of the connection
+		defer c.Close()
+		n := 200 + rng.Intn(1800)
+		var b []byte
+		for i := 0; i < n; i++ {
+			b = append(b, request("PING")...)
+		}
+		c.Write(append(b, []byte("*2\r\n$abc\r\n")...))
+		time.Sleep(time.Duration(20+rng.Intn(60)) * time.Millisecond)
+		c.SetReadDeadline(time.Now().Add(2 * time.Second))
+		rd := bufio.NewReader(c)
+		pongs := 0
+		for {
+			line, err := rd.ReadString('\n')
+			if line == "+PONG\r\n" {
+				pongs++
+			}
+			if err != nil {
+				ne, ok := err.(net.Error)
+				return pongs == n && !(ok && ne.Timeout()), true
+			}
+		}
+	}
 	if mode == "quit-hold" {
 		// the client does not close after QUIT: the server has to release the connection on its own
 		defer func() { cr.hmu.Lock(); cr.held = append(cr.held, c); cr.hmu.Unlock() }()
@@ -131,6 +156,23 @@ func (cr *churnRun) one(mode string, rng *rand.Rand) (closedByServer bool, mustC
 		return true, false
 	case "quit", "quit-hold":
 		c.Write(request("QUIT"))
+		return readEOF(c), true
+	case "quit-chatter":
+		// the client goes on sending after QUIT (a heartbeat, a pipeline that was already on its way): the server still has
+		// to let go of the connection
+		c.Write(request("QUIT"))
+		stop := make(chan struct{})
+		defer close(stop)
+		go func() {
+			for {
+				select {
+				case <-stop:
+					return
+				case <-time.After(150 * time.Millisecond):
+					c.Write(request("PING"))
+				}
+			}
+		}()
 		return readEOF(c), true
 	case "malformed":
 		c.Write([]byte("*2\r\n$abc\r\n"))
@@ -270,6 +312,25 @@ func cmdChurn(args []string) {
 		}
 		open = append(open, sr)
 		time.Sleep(50 * time.Millisecond)
+	}
+	// ... the same on the TLS port (an established TLS connection whose client does not read) ...
+	if raw, err := net.DialTimeout("tcp", fmt.Sprintf("127.0.0.1:%d", cr.tlsp), time.Second); err == nil {
+		tc := tls.Client(raw, &tls.Config{RootCAs: p.rootPool, ServerName: "localhost", Certificates: p.clients["ok"], MinVersion: tls.VersionTLS12})
+		raw.SetDeadline(time.Now().Add(2 * time.Second))
+		if tc.Handshake() == nil {
+			tc.Write(request("SET", "stalled-big-tls", string(make([]byte, 1<<20))))
+			for i := 0; i < 64; i++ {
+				tc.Write(request("GET", "stalled-big-tls"))
+			}
+		}
+		raw.SetDeadline(time.Time{})
+		open = append(open, raw)
+		time.Sleep(50 * time.Millisecond)
+	}
+	// ... and with a client on the TLS port that connected and has not said anything yet (the handshake has not started)
+	if raw, err := net.DialTimeout("tcp", fmt.Sprintf("127.0.0.1:%d", cr.tlsp), time.Second); err == nil {
+		open = append(open, raw)
+		time.Sleep(20 * time.Millisecond)
 	}
 	// the resets come last, immediately before Stop (the server notices a reset within microseconds of being scheduled)
 	for _, raw := range doomed {
